@@ -747,3 +747,180 @@ Proof.
     - split; [reflexivity|constructor]. }
   exact (proj1 Hr).
 Qed.
+
+(* ---------- sparse_retry: success is always backed by a successful fetch ---------- *)
+
+Section Retry.
+  Variable idx : index.
+  Variable nullid : id.
+  Variable store : store_t.
+  Hypothesis Ht : tiles_from 0 idx.
+  Notation fetched := (fetched_ok idx store).
+
+  Lemma fetched_mono fl fl' i : incl fl fl' -> fetched fl i -> fetched fl' i.
+  Proof. intros Hi [c [d [A B]]]. exists c, d. split; [apply Hi; exact A|exact B]. Qed.
+
+  Definition rtodo (p : phase) : list nat :=
+    match p with PNeed t => t | PFetch i t => i :: t | PWrite i _ t => i :: t | PSet _ t => t end.
+
+  Definition thread_r (fl : list (nat * nat)) (th : thread) : Prop :=
+    match pc th with
+    | None => True
+    | Some p =>
+        queue th <> [] /\
+        match p with PWrite i _ _ | PSet i _ => fetched fl i | _ => True end /\
+        match queue th with
+        | RqRead off len :: _ =>
+            0 <= off -> (1 <= len)%nat -> off + Z.of_nat len < two64 ->
+            forall j r, nth_error idx j = Some r -> row_overlaps r off len ->
+                        In j (rtodo p) \/ r_id r = nullid \/ fetched fl j
+        | _ => True
+        end
+    end.
+
+  Lemma thread_r_mono fl fl' th : incl fl fl' -> thread_r fl th -> thread_r fl' th.
+  Proof.
+    intros Hi. unfold thread_r. destruct (pc th) as [p|]; [|auto]. intros [Q [A B]]. split; [exact Q|]. split.
+    - destruct p; auto; eapply fetched_mono; eauto.
+    - destruct (queue th) as [|[off len| |] q]; auto. intros H1 H2 H3 j r Hn Ho.
+      destruct (B H1 H2 H3 j r Hn Ho) as [E|[E|E]]; [left; exact E|right; left; exact E|right; right; eapply fetched_mono; eauto].
+  Qed.
+
+  Lemma read_backed_mono fl fl' e : incl fl fl' -> read_backed idx nullid store fl e -> read_backed idx nullid store fl' e.
+  Proof.
+    intros Hi. destruct e as [[off len| |] [d eof|e|]]; cbn; auto. intros B H1 H2 H3 j r Hn Ho.
+    destruct (B H1 H2 H3 j r Hn Ho) as [E|E]; [left; exact E|right; eapply fetched_mono; eauto].
+  Qed.
+
+  Record RInv (s : sstate) : Prop := {
+    ri_done : forall i, nth i (s_done s) false = true -> fetched (s_fetched s) i;
+    ri_saved : forall b, s_saved s = Some b -> forall i, nth i b false = true -> fetched (s_fetched s) i;
+    ri_threads : Forall (thread_r (s_fetched s)) (s_threads s);
+    ri_log : Forall (read_backed idx nullid store (s_fetched s)) (s_log s);
+  }.
+
+  Lemma rtstep s k s' : RInv s -> tstep idx nullid store s k = Some s' -> RInv s'.
+  Proof.
+    intros [Rd Rs Rt Rl] E. unfold tstep in E.
+    destruct (nth_error (s_threads s) k) as [th|] eqn:Ek; [|discriminate].
+    assert (Hth : thread_r (s_fetched s) th) by (rewrite Forall_forall in Rt; apply Rt; eapply nth_error_In; eauto).
+    unfold thread_r in Hth.
+    destruct (queue th) as [|rq q] eqn:Eq.
+    { destruct (pc th) as [[[|? ?]|? ?|? ? ?|? ?]|]; discriminate. }
+    destruct (pc th) as [p|] eqn:Epc.
+    - destruct Hth as [_ [Hp Hcov]].
+      destruct p as [[|i todo]|i todo|i d todo|i todo].
+      + (* the request completes *)
+        assert (Hres : forall res, (forall off len, rq = RqRead off len -> res = file_read (s_file s) off len) ->
+                       read_backed idx nullid store (s_fetched s) (rq, res)).
+        { intros res Hr. destruct rq as [off len| |]; [|exact I|exact I]. destruct res as [d eof|e|]; cbn; auto.
+          intros H1 H2 H3 j r Hn Ho. destruct (Hcov H1 H2 H3 j r Hn Ho) as [[]|E0]. exact E0. }
+        assert (s' = finish s k th (match rq with RqRead off len => file_read (s_file s) off len | _ => RDone end))
+          by (destruct rq; inversion E; reflexivity). subst s'. unfold finish. rewrite Eq.
+        constructor; cbn; auto.
+        * apply set_nth_Forall; [exact Rt|exact I].
+        * constructor; [|exact Rl]. apply Hres. intros off len ->. reflexivity.
+      + destruct (nth i (s_mutex s) true); [discriminate|].
+        destruct (nth i (s_done s) false) eqn:Edone; inversion E; subst s'; constructor; cbn; auto.
+        * apply set_nth_Forall; [exact Rt|]. unfold thread_r. cbn [pc queue]. rewrite Eq. split; [discriminate|]. split; [exact I|].
+          destruct rq as [off len| |]; auto. intros H1 H2 H3 j r Hn Ho.
+          destruct (Hcov H1 H2 H3 j r Hn Ho) as [[<-|Hin]|Hb]; [right; right; apply Rd; exact Edone|left; exact Hin|right; exact Hb].
+        * apply set_nth_Forall; [exact Rt|]. unfold thread_r. cbn [pc queue]. rewrite Eq. split; [discriminate|]. split; [exact I|exact Hcov].
+      + destruct (store (s_calls s) (r_id (nth i idx row0))) as [d|c] eqn:Est.
+        * destruct (length d =? 0)%nat.
+          -- inversion E; subst s'. unfold finish. rewrite Eq. constructor; cbn; auto.
+             ++ apply set_nth_Forall; [exact Rt|exact I].
+             ++ constructor; [destruct rq; exact I|exact Rl].
+          -- inversion E; subst s'. clear E.
+             assert (Hincl : incl (s_fetched s) ((s_calls s, i) :: s_fetched s)) by (intros x Hx; right; exact Hx).
+             assert (Hfi : fetched ((s_calls s, i) :: s_fetched s) i) by (exists (s_calls s), d; split; [left; reflexivity|exact Est]).
+             constructor; cbn [s_done s_saved s_threads s_log s_fetched set_pc upd_thread].
+             ++ intros j Hj. eapply fetched_mono; [exact Hincl|apply Rd; exact Hj].
+             ++ intros b Hb j Hj. eapply fetched_mono; [exact Hincl|exact (Rs b Hb j Hj)].
+             ++ apply set_nth_Forall.
+                ** eapply Forall_impl; [|exact Rt]. intros th0. apply thread_r_mono. exact Hincl.
+                ** unfold thread_r. cbn [pc queue]. rewrite Eq. split; [discriminate|]. split; [exact Hfi|].
+                   destruct rq as [off len| |]; auto. intros H1 H2 H3 j r Hn Ho.
+                   destruct (Hcov H1 H2 H3 j r Hn Ho) as [E0|[E0|E0]]; [left; exact E0|right; left; exact E0|right; right; eapply fetched_mono; eauto].
+             ++ eapply Forall_impl; [|exact Rl]. intros e. apply read_backed_mono. exact Hincl.
+        * inversion E; subst s'. unfold finish. rewrite Eq. constructor; cbn; auto.
+          -- apply set_nth_Forall; [exact Rt|exact I].
+          -- constructor; [destruct rq; exact I|exact Rl].
+      + inversion E; subst s'. constructor; cbn; auto.
+        apply set_nth_Forall; [exact Rt|]. unfold thread_r. cbn [pc queue]. rewrite Eq. split; [discriminate|]. split; [exact Hp|].
+        destruct rq as [off len| |]; auto. intros H1 H2 H3 j r Hn Ho.
+        destruct (Hcov H1 H2 H3 j r Hn Ho) as [[<-|Hin]|Hb]; [right; right; exact Hp|left; exact Hin|right; exact Hb].
+      + inversion E; subst s'. constructor; cbn [s_done s_saved s_threads s_log s_fetched set_pc upd_thread]; auto.
+        * intros j Hj. destruct (Nat.eq_dec j i) as [->|Hne]; [exact Hp|]. apply Rd. rewrite <- Hj. symmetry.
+          apply nth_set_nth_other. exact Hne.
+        * apply set_nth_Forall; [exact Rt|]. unfold thread_r. cbn [pc queue]. rewrite Eq. split; [discriminate|]. split; [exact I|exact Hcov].
+    - destruct rq as [off len|i|].
+      + destruct (index_range idx off (Z.of_nat len)) as [[first last]|] eqn:Er; [|discriminate].
+        pose proof (needed_spec idx nullid (s_done s) first last) as Hnd.
+        destruct (needed idx nullid (s_done s) first last) as [todo|]; inversion E; subst s'; constructor; cbn; auto.
+        apply set_nth_Forall; [exact Rt|]. unfold thread_r. cbn [pc queue]. rewrite Eq. split; [discriminate|]. split; [exact I|].
+        destruct Hnd as [_ Hin]. intros H1 H2 H3 j r Hnj [Ho1 Ho2].
+        destruct (index_range_covers idx off len Ht H1 H2 H3) as [f' [l' [Er' Hc]]].
+        rewrite Er in Er'. inversion Er'; subst f' l'. specialize (Hc j r Hnj Ho1 Ho2).
+        destruct (nth j (s_done s) false) eqn:Edn; [right; right; apply Rd; exact Edn|].
+        destruct (N.eqb (r_id (nth j idx row0)) nullid) eqn:En.
+        * right. left. apply N.eqb_eq in En. rewrite (nth_error_nth _ _ row0 Hnj) in En. exact En.
+        * left. apply Hin. split; [exact Hc|]. split; assumption.
+      + inversion E; subst s'. constructor; cbn; auto.
+        apply set_nth_Forall; [exact Rt|]. unfold thread_r. cbn [pc queue]. rewrite Eq. split; [discriminate|]. split; exact I.
+      + inversion E; subst s'. unfold finish. cbn [queue]. rewrite Eq. constructor; cbn; auto.
+        * intros b Hb i Hi. inversion Hb; subst b. apply Rd. exact Hi.
+        * apply set_nth_Forall; [exact Rt|exact I].
+  Qed.
+
+  Lemma rstep s l s' : RInv s -> step idx nullid store s l = Some s' -> RInv s'.
+  Proof.
+    intros Hinv E. destruct l as [k|k rq|m]; cbn [step] in E.
+    - destruct (s_crashed s); [discriminate|]. exact (rtstep s k s' Hinv E).
+    - destruct (s_crashed s || negb (valid_request idx rq)); [discriminate|].
+      destruct Hinv as [Rd Rs Rt Rl].
+      destruct (nth_error (s_threads s) k) as [th|] eqn:Ek; inversion E; subst s'; constructor; cbn; auto.
+      + assert (Hth : thread_r (s_fetched s) th) by (rewrite Forall_forall in Rt; apply Rt; eapply nth_error_In; eauto).
+        apply set_nth_Forall; [exact Rt|]. unfold thread_r in *. cbn [pc queue].
+        destruct (pc th) as [p|] eqn:Epc; [|exact I]. destruct Hth as [Q [A B]].
+        split; [intro E0; apply app_eq_nil in E0; destruct E0 as [_ E0]; discriminate|]. split; [exact A|].
+        destruct (queue th) as [|rq0 q0]; [contradiction|exact B].
+      + apply Forall_app. split; [exact Rt|]. constructor; [exact I|constructor].
+    - inversion E; subst s'. destruct Hinv as [Rd Rs Rt Rl]. unfold restart.
+      match goal with |- context [if ?c then _ else _] => destruct c eqn:Ec end.
+      + constructor; cbn; auto.
+        destruct (s_saved s) as [b|]; [|apply andb_true_iff in Ec; destruct Ec; discriminate].
+        intros i Hi. exact (Rs b eq_refl i Hi).
+      + constructor; cbn; auto.
+        * intros i Hi. rewrite nth_repeat_false in Hi. discriminate.
+        * destruct (s_saved s) as [b|]; [|constructor].
+          destruct (m_preload m && m_state m && state_matches idx b); [|constructor].
+          apply Forall_forall. intros th Hin. apply in_map_iff in Hin. destruct Hin as [i [<- _]]. exact I.
+  Qed.
+End Retry.
+
+(* sparse_retry: for EVERY schedule (all restarts allowed, paired or not), every fault pattern: if a ReadAt with a
+   non-empty buffer reported success, then for every chunk the request covers, either it is the null chunk or some
+   GetChunk call for it succeeded and was written (in this or an earlier incarnation).  A failed load is never such a
+   call: after a failure the range is served only after a successful retry, otherwise the read fails. *)
+Theorem sparse_retry idx nullid store sched off len d eof :
+  tiles_from 0 idx ->
+  let s := run (step idx nullid store) sched (init idx) in
+  In (RqRead off len, ROk d eof) (s_log s) ->
+  0 <= off -> (1 <= len)%nat -> off + Z.of_nat len < two64 ->
+  forall j r, nth_error idx j = Some r -> row_overlaps r off len ->
+    r_id r = nullid \/ exists c d', In (c, j) (s_fetched s) /\ store c (r_id r) = SData d'.
+Proof.
+  intros Ht s Hin H1 H2 H3 j r Hn Ho.
+  assert (Hr : RInv idx nullid store s).
+  { apply (inv_run (step idx nullid store) (RInv idx nullid store)).
+    - intros s0 l s1. apply rstep. exact Ht.
+    - constructor; cbn.
+      + intros i Hi. rewrite nth_repeat_false in Hi. discriminate.
+      + intros b Hb. discriminate.
+      + constructor.
+      + constructor. }
+  destruct Hr as [_ _ _ Rl]. rewrite Forall_forall in Rl. specialize (Rl _ Hin). cbn in Rl.
+  destruct (Rl H1 H2 H3 j r Hn Ho) as [E|[c [d' [A B]]]]; [left; exact E|right].
+  exists c, d'. split; [exact A|]. rewrite (nth_error_nth _ _ row0 Hn) in B. exact B.
+Qed.
